@@ -363,7 +363,7 @@ def accumulator_signs(ctx: Ctx):
             ctx.ob("C06.j", f"{cname}.checker:{n.args[0]}:direction", not wrong, sl.where,
                    f"accumulator `{n.args[0]}` grows with {sorted(rel)}" if not wrong else
                    f"accumulator `{n.args[0]}`: {wrong} enter with the wrong sign (expected " + ", ".join(f"{k}: {ACC_SIGN[k]:+d}" for k in wrong) + "): the simulated clock / load runs backwards, "
-                   "so violations of the limit go unnoticed", construct=f"{sl.fi.qualname}:accumulator-sign:{n.args[0]}")
+                   "so violations of the limit go unnoticed", construct=f"{sl.fi.qualname}:accumulator-sign:" + "+".join(sorted(rel)))
         if n_acc == 0:
             from ..model import AnalysisError
             raise AnalysisError(f"{cname}.check_solution_validity: no accumulator with a signed operand found")
